@@ -21,7 +21,7 @@ ID = "C19"
 LEVEL = "exploration"
 TECHNIQUE = "generated session histories (Hypothesis) saved and restored through external state adapters; round-trip oracle on session state and served results"
 RULE = ("cases = (start in {0,1,2.5,8,9.5,98}, dt in {1,0.5,0.25,0.1}, one or two SD scenario managers in the session, begin-session with or without settings, "
-        "history of run-step / run-steps k / a new begin-session / save-state requests, each step with settings in {no body, {}, constants, points} per manager, "
+        "history of run-step / run-steps k / a new begin-session / save-state requests, each step with settings in {no body, {}, constants, points, scenario named with {}, manager named with {}} per manager, incl. uniform histories (one shape at every step), "
         "compress on/off, adapter kind {file, memory}, a session-less sibling instance, restore path {instance, new server, same server after end-session / new begin-session}); session_state (scenario managers, scenarios, "
         "equations, step, starttime, stoptime, dt, settings_log, results_log) and the bodies of session-results / flat-session-results "
         "before the save must equal those after the load. non-trivial = start != 1 or dt != 1, or a step without settings / with {}; "
@@ -69,10 +69,13 @@ def settings_body(s1, s2=None):
     if s1 is None and s2 is None:
         return None
     d = {}
-    if s1:
-        d[SM] = {SC: s1}
-    if s2:
-        d[SM2] = {SC: s2}
+    for sm_, s_ in ((SM, s1), (SM2, s2)):
+        if s_ == "empty-scenario":  # the scenario is named, nothing is set for it
+            d[sm_] = {SC: {}}
+        elif s_ == "empty-manager":  # the manager is named, no scenario below it
+            d[sm_] = {}
+        elif s_:
+            d[sm_] = {SC: s_}
     return {"settings": d}
 
 
@@ -304,6 +307,7 @@ def check_case(case):
 
 def case_strategy():
     setting = st.one_of(st.none(), st.just({}), st.sampled_from([{"constants": {}}, {"points": {}}, {"constants": {}, "points": {}}]),
+                        st.sampled_from(["empty-scenario", "empty-manager"]),
                         st.sampled_from([0.5, 1.0, 3.0, 7.0]).map(lambda v: {"constants": {"k": v}}),
                         st.sampled_from([1.0, 5.0, 20.0]).map(lambda v: {"points": {"p": [[0.0, 0.0], [10.0, v]]}}),
                         st.sampled_from([1.0, 4.0]).map(lambda v: {"constants": {"k": v}, "points": {"p": [[0.0, 1.0], [10.0, v]]}}))
@@ -317,7 +321,9 @@ def case_strategy():
     return st.fixed_dictionaries({
         "start": st.sampled_from(["0", "1", "2.5", "8", "9.5", "98"]), "dt": st.sampled_from(["1", "0.5", "0.25", "0.1"]),
         "two": st.booleans(), "begin_settings": bset, "spare": st.sampled_from([False, False, True]),
-        "ops": st.lists(op, min_size=1, max_size=7),
+        "ops": st.one_of(st.lists(op, min_size=1, max_size=7), st.lists(op, min_size=1, max_size=7),
+                         # uniform histories: every step carries settings of one and the same shape (the compressed log format's best case)
+                         st.tuples(setting, setting, st.integers(1, 5)).map(lambda x: [["step", x[0], x[1]]] * x[2])),
         "equations": eqs,
         "compress": st.booleans(), "adapter": st.sampled_from(["file", "memory"]), "path": st.sampled_from(["instance", "server", "server", "same-server-end", "same-server-begin"])}).map(
         lambda c: dict(c, managers=[SM, SM2] if c["two"] else [SM]))
